@@ -334,6 +334,13 @@ Call(e) ==
                           \cup (IF Len(got) = 1 /\ Len(want) = 1 /\ got[1].op # want[1].op THEN {"C05"} ELSE {})
                           \cup (IF Len(got) = 1 /\ Len(want) = 1 /\ got[1].rev # want[1].rev THEN {"C17"} ELSE {}),
                         e, <<"live", c2, Class(pre)>>, BriefEvs(want), BriefEvs(got))})
+        \* ---- events of one collection reach a feed in increasing CAS order (C08): the event of a regular write carries a
+        \*      CAS above every event the feed has had before (those with a caller-chosen CAS included)
+        prevMax == IF Len(evlog[c]) = 0 THEN 0
+                   ELSE LET S == {evlog[c][j][2].cas : j \in 1..Len(evlog[c])} IN CHOOSE m \in S : \A x \in S : x <= m
+        fOrder ==
+            F(e.skiplive \/ isPurge \/ ~regular \/ Len(LiveOf(e, c)) # 1 \/ LiveOf(e, c)[1].cas > prevMax,
+              {"C08"}, <<"live-cas-order", c>>, prevMax, IF Len(LiveOf(e, c)) = 1 THEN LiveOf(e, c)[1].cas ELSE 0)
         \* ---- a backfill describes a version exactly as the live event did (C09, C08): whatever the specification
         \*      expects, the two descriptions of one version (same key, same CAS) must not differ
         fAgree ==
@@ -413,7 +420,7 @@ Call(e) ==
     /\ dumps' = nd
     /\ clock' = IF mut /\ regular /\ ~isPurge /\ postObs.cas > clock THEN postObs.cas ELSE clock
     /\ start' = start
-    /\ nfail' = nfail + fStep + fRev + fShown + fFresh + fReaders + fOthers + fLive + fAgree + fMlive + fKlive + fDump + fDump2 + (IF isPurge THEN 0 ELSE fAux + fFresh2)
+    /\ nfail' = nfail + fStep + fRev + fShown + fFresh + fReaders + fOthers + fLive + fOrder + fAgree + fMlive + fKlive + fDump + fDump2 + (IF isPurge THEN 0 ELSE fAux + fFresh2)
     /\ evlog' = IF mut /\ ~isPurge THEN [evlog EXCEPT ![c] = Append(@, <<e.i, EventOf(k, post, CollId(c))>>)] ELSE evlog
     /\ verlog' = [c2 \in Colls |->
                     LET ks == {k2 \in Keys : newDocs[c2][k2] # docs[c2][k2]} IN
